@@ -34,15 +34,15 @@ POOL = [
     ("null", "null"), ("int0", "0"), ("int1", "1"), ("intneg", "(-1)"), ("int2", "2"),
     ("i64max", "9223372036854775807"), ("i64min", "(-9223372036854775808)"), ("bigint", "(2^64)"), ("bigrep2", "((2^70+2)-2^70)"),
     ("rational", "(1/2)"), ("float", "0.5"), ("negzero", "(-0.0)"), ("inf", "(1.0/0.0)"), ("nan", "(0.0/0.0)"), ("complex", "(1+2i)"),
-    ("emptystr", '""'), ("str", '"a"'), ("uchar", '"é"'), ("ustr", '"héllo wörld"'),
+    ("emptystr", '""'), ("str", '"a"'), ("uchar", '"é"'), ("chhi", "'\\u{e000}'"), ("ustr", '"héllo wörld"'),
     ("emptylist", "[]"), ("list", "[1, 2, 3]"), ("nested", "[[1, 2], [3]]"), ("mixed", '[1, "a", null]'),
-    ("emptydict", "{}"), ("dict", '{1: 2, "a": [3]}'), ("defdict", "{:0}"),
+    ("emptydict", "{}"), ("dict", '{1: 2, "a": [3]}'), ("defdict", "{:0}"), ("dictfn", "{1: len, 2: [1 to 3]}"),
     ("vector", "V(1, 2)"), ("emptybytes", "B[]"), ("badutf8", "B[255, 0, 65]"),
     ("stream", "(1 to 3)"), ("emptystream", "(1 to 0)"), ("infstream", "iota(1)"),
     ("builtin", "(+)"), ("closure", "(\\x -> x)"), ("type", "int"), ("instance", "Foo(1, [2])"),
 ]
 RISKY = {"i64max", "i64min", "bigint", "inf", "infstream"}
-QUICK = ["null", "int0", "intneg", "int2", "bigrep2", "i64max", "i64min", "rational", "nan", "str", "uchar", "emptylist", "list", "dict", "vector", "badutf8",
+QUICK = ["null", "int0", "intneg", "int2", "bigrep2", "i64max", "i64min", "rational", "nan", "str", "uchar", "emptylist", "list", "dict", "dictfn", "vector", "badutf8",
          "stream", "infstream", "closure"]
 SUB3 = ["null", "int0", "intneg", "int2", "float", "str", "uchar", "emptylist", "list", "dict", "stream", "closure", "i64min"]
 SUB3_QUICK = ["int0", "intneg", "str", "list", "closure", "null"]
@@ -80,7 +80,8 @@ TEMPLATES = [
     ("compare_chain", "{A} < {B} <= {C}", 3), ("arith_chain", "{A} + {B} * {C}", 3), ("divmod", "[{A} // {B}, {A} % {B}, {A} %% {B}, {A} /! {B}]", 2),
     ("pow", "{A} ^ {B}", 2), ("shift", "[{A} << {B}, {A} >> {B}]", 2), ("range", "force_({A} til {B} by {C})", 3), ("range_to", "force_({A} to {B} by {C})", 3), ("range_list", "list({A} to {B})", 2),
     ("range_unpack", "a, b := {A} til {B} by {C}", 3), ("range_only", "only({A} to {B} by {C})", 3), ("range_zip", "({A} til {B} by {C}) zip [1, 2]", 3),
-    ("range_in", "{A} in ({B} til {C})", 3), ("iota_by", "force_(iota({A}, {B}))", 2),
+    ("range_in", "{A} in ({B} til {C})", 3), ("str_range_gap", "'\\u{{d7ff}}' to {A}", 1), ("str_range_gap2", "{A} til '\\u{{e000}}'", 1),
+    ("str_range_gap3", "'\\u{{d7fe}}' to '\\u{{e001}}'", 0), ("iota_by", "force_(iota({A}, {B}))", 2),
     ("precedence", "f := \\a, b -> a; f::precedence = {A}; 1 f 2", 1), ("freeze", "freeze (\\q -> q + {A})", 1),
 ]
 
